@@ -111,6 +111,15 @@ def body_listing(rep, case, sub="listing"):
             from aioswitcher.api.messages import SwitcherGetSchedulesResponse
             resp = SwitcherGetSchedulesResponse(reply)
         judge_listing(case, resp)
+        if case.get("via", "api") == "direct":
+            # the caller owns what it got: editing a listed schedule's day set must not change what the same reply
+            # parses to the next time
+            for sch in resp.schedules:
+                try:
+                    sch.days.clear()
+                except AttributeError:
+                    pass
+            judge_listing(case, SwitcherGetSchedulesResponse(reply), "C10/listing/after-caller-edited-earlier-result")
 
 
 def body_empty(rep, case):
@@ -223,6 +232,10 @@ def _force_dup(rs):
     return rs
 
 
+# on DST days the interesting wall times are the small hours: half of the clock strings come from 00:00..03:59
+EARLY = st.one_of(gen.clock, st.integers(0, 239).map(lambda m: f"{m // 60:02d}:{m % 60:02d}"))
+
+
 def strat_roundtrip(tier):
     pool = date_pool(tier)
 
@@ -232,7 +245,7 @@ def strat_roundtrip(tier):
             lambda now_s, start, end, days, slot, dev: {"zone": z, "now": [y, mo, d, now_s // 3600, now_s // 60 % 60, now_s % 60],
                                                         "start": start, "end": end, "days": days, "near": near, "slot": slot,
                                                         "device_id": dev},
-            st.sampled_from([30, 43200, 86370]), gen.clock, gen.clock, gen.day_sets, st.integers(0, 255), gen.device_ids)
+            st.sampled_from([30, 43200, 86370, 21 * 3600 + 1800, 3 * 3600]), EARLY, EARLY, gen.day_sets, st.integers(0, 255), gen.device_ids)
     return lambda: st.sampled_from(pool).flatmap(for_date)
 
 
